@@ -78,6 +78,10 @@ def run(chk):
     if few:
         outs = outs + FR.run_many(few)
         chk.count("runs whose dynamical ejection leaves the boundary BH bin with 1.3 - 3.5 objects", len(few))
+    # fourth stage, fixed (nothing drawn from the generator, run after every stage that slices `outs`): the dynamical ejection asked to remove all, or all
+    # but a few hundred-thousandths, of the BH mass - the "kicking basically all, skip ahead" shortcut of _evolve: numbers and masses empty together
+    outs = outs + FR.run_many([dict(base_, tout=[100.0, 12000.0], BH_ret_dyn=0.0), dict(base_, tout=[30.0, 3000.0], BH_ret_dyn=1e-5),
+                               dict(base_, tout=[12000.0], N0=2e3, BH_ret_dyn=0.01), dict(base_, tout=[500.0], BH_ret_dyn=0.0, esc_rate=-10.0)])
     for out in outs:
         cfg = out["cfg"]
         if "error" in out:
